@@ -28,6 +28,14 @@
 (*   (A); if s is null but owns a control block of its own, the control    *)
 (*   block is freed and used again: nothing observable, the process may    *)
 (*   die (B).  See AssignCopy / AssignCopySelfDev.                         *)
+(*   shared-assign-from-member-of-own-pointee:  `head = head->next` /      *)
+(*   `head = std::move(head->next)` on shared_ptr: the old head is let go  *)
+(*   of before the source is read, which destroys the source and the whole *)
+(*   rest of the chain.  See FromPointee / AssignFromPointeeDev.           *)
+(*                                                                         *)
+(* Objects are nodes (MKind): each owns a member pointer variable, so that *)
+(* sources and destinations of every operation may live inside managed     *)
+(* objects and destruction cascades along chains.                          *)
 (***************************************************************************)
 EXTENDS Naturals, Sequences, FiniteSets, TLC, Json
 
@@ -35,17 +43,27 @@ CONSTANTS NVar,    \* number of pointer variables (names "a", "b", "c")
           UVars,   \* names that are unique_ptr (the others are shared_ptr)
           BVars,   \* names whose element type is Base (the others Derived)
           NObj,    \* objects 1..NObj (all of dynamic type Derived)
+          MKind,   \* "none" | "unique" | "shared": every object is a node with an owning member `next` of that
+                   \* kind (element type Derived): the member of object o is the pointer variable "m<o>" of the
+                   \* machine, alive (and initially empty) exactly as long as o is, so that every operation can
+                   \* have its source or destination INSIDE a managed object (a = std::move(a->next), ...)
           Hist,    \* BOOLEAN: record behaviours (generation runs)
           Depth,   \* generation: length of the behaviours that are printed
           Dev      \* set of deviation names that are modelled
 
-Vars == SubSeq(<<"a", "b", "c">>, 1, NVar)
+MName == <<"m1", "m2", "m3">>
+Roots == SubSeq(<<"a", "b", "c">>, 1, NVar)
+Vars == IF MKind = "none" THEN Roots ELSE Roots \o SubSeq(MName, 1, NObj)
+RootVar == {Roots[i] : i \in 1..Len(Roots)}
+MVarsOf(D) == IF MKind = "none" THEN {} ELSE {MName[o] : o \in D}
 Var  == {Vars[i] : i \in 1..Len(Vars)}
 Obj  == 1..NObj
 Null == 0
 OOS  == 9          \* "variable is not in scope" in the observable projection
+MemberVars == MVarsOf(Obj)
 SelfCopyDev == "shared-self-copy-assign-sole-owner"
-NWit == 12
+PointeeDev  == "shared-assign-from-member-of-own-pointee"
+NWit == 16
 
 VARIABLES scope,   \* set of variables currently alive
           own,     \* Var -> Obj \cup {Null}
@@ -62,7 +80,7 @@ VARIABLES scope,   \* set of variables currently alive
 bvars == <<scope, own, raw, ost, dcnt, devUsed, ncb>>
 vars  == <<bvars, hist>>
 
-IsU(v) == v \in UVars
+IsU(v) == v \in UVars \/ (v \in MemberVars /\ MKind = "unique")
 IsB(v) == v \in BVars
 SameType(v, w) == IsB(v) <=> IsB(w)
 \* w's pointer converts to v's: Derived* -> Base* or same type
@@ -104,20 +122,47 @@ NoDev == [name |-> "", exp |-> <<>>]
 \* generation runs stop at Depth operations
 Go == devUsed = {} /\ (~Hist \/ Len(hist) < Depth)
 
+\* Destruction cascades: an object that dies takes its member variable with it, which lets go of
+\* what IT owns, and so on.  D: objects dead so far.
+RECURSIVE Cascade(_, _, _, _)
+Cascade(sc, ow, rw, D) ==
+  LET sc3  == sc \ MVarsOf(D)
+      more == {o \in ({ow[m] : m \in MVarsOf(D)} \ ({Null} \cup D)) : ~Owned(o, sc3, ow, rw)}
+  IN IF more = {} THEN D ELSE Cascade(sc, ow, rw, D \cup more)
+\* The state after an operation that leaves scope sc2 / ownership ow2 / raw set rw2, creates `born`
+\* and lets go of `rel`: an object let go of dies in this step iff nobody owns it afterwards.
+Settle(sc2, ow2, rw2, born, rel) ==
+  LET scb == sc2 \cup MVarsOf(born)                 \* members of new objects exist, empty
+      D   == Cascade(scb, ow2, rw2, {o \in rel \ {Null} : ~Owned(o, scb, ow2, rw2)})
+  IN [sc   |-> scb \ MVarsOf(D),
+      ow   |-> [x \in Var |-> IF x \in MVarsOf(D) THEN Null ELSE ow2[x]],
+      os   |-> [o \in Obj |-> IF o \in D THEN "dead" ELSE IF o \in born THEN "live" ELSE ost[o]],
+      died |-> D]
+\* objects reachable from the root variables and the caller's raw pointers
+RECURSIVE ReachN(_, _, _)
+ReachN(ow, sc, R) == LET R2 == R \cup ({ow[m] : m \in MVarsOf(R) \cap sc} \ {Null})
+                     IN IF R2 = R THEN R ELSE ReachN(ow, sc, R2)
+Reach(sc, ow, rw) == ReachN(ow, sc, ({ow[x] : x \in sc \cap RootVar} \ {Null}) \cup rw)
+\* Ownership cycles (an object owning itself through its members) leak in std as well and are never
+\* built: every operation must leave every live object reachable from a root.
+NoCycle(st, rw) == \A o \in Obj : st.os[o] = "live" =>
+                      /\ o \in Reach(st.sc, st.ow, rw)
+                      /\ o \notin ReachN(st.ow, st.sc, {st.ow[m] : m \in MVarsOf({o}) \cap st.sc} \ {Null})
+
 \* One operation: new scope / ownership / raw set, newly created objects, objects let go of.
 \* alts: other outcomes the contract allows for this step (don't-care band); dv: deviation record
 Step(op, v, w, sc2, ow2, rw2, born, rel, ret, alts, dv, n2) ==
-  LET died == {o \in rel \ {Null} : ~Owned(o, sc2, ow2, rw2)}
-      os2  == [o \in Obj |-> IF o \in died THEN "dead" ELSE IF o \in born THEN "live" ELSE ost[o]]
+  LET st == Settle(sc2, ow2, rw2, born, rel)
   IN /\ Go
-     /\ scope' = sc2 /\ own' = ow2 /\ raw' = rw2
-     /\ ost' = os2
-     /\ dcnt' = [o \in Obj |-> dcnt[o] + (IF o \in died THEN 1 ELSE 0)]
+     /\ NoCycle(st, rw2)
+     /\ scope' = st.sc /\ own' = st.ow /\ raw' = rw2
+     /\ ost' = st.os
+     /\ dcnt' = [o \in Obj |-> dcnt[o] + (IF o \in st.died THEN 1 ELSE 0)]
      /\ UNCHANGED devUsed
-     /\ ncb' = {x \in n2 \cap sc2 : ~IsU(x) /\ ow2[x] = Null}
+     /\ ncb' = {x \in n2 \cap st.sc : ~IsU(x) /\ st.ow[x] = Null}
      /\ hist' = IF ~Hist THEN hist
                 ELSE Append(hist, [op |-> op, v |-> v, w |-> w,
-                                   exp |-> ObsOf(sc2, ow2, os2, died, ret),
+                                   exp |-> ObsOf(st.sc, st.ow, st.os, st.died, ret),
                                    alts |-> alts, dev |-> dv.name, expDev |-> dv.exp])
 
 Plain(op, v, w, sc2, ow2, rw2, born, rel, ret, n2) == Step(op, v, w, sc2, ow2, rw2, born, rel, ret, <<>>, NoDev, n2)
@@ -126,27 +171,37 @@ Takes(v, w) == IF (w \in ncb) \/ (IsU(w) /\ own[w] = Null) THEN ncb \cup {v} ELS
 
 (* ---- construction ------------------------------------------------------ *)
 CtorDefault(v) ==      \* P<T> v;   P<T> v(nullptr);
-  /\ v \notin scope
+  /\ v \in RootVar /\ v \notin scope
   /\ Plain("CtorDefault", v, "", scope \cup {v}, [own EXCEPT ![v] = Null], raw, {}, {}, OOS, ncb \cup {v})
 
 CtorNew(v) ==          \* P<T> v(new Derived)  /  from std::unique_ptr&& / std::shared_ptr
-  /\ v \notin scope /\ Unborn # {}
+  /\ v \in RootVar /\ v \notin scope /\ Unborn # {}
   /\ LET o == NextObj IN
      Plain("CtorNew", v, "", scope \cup {v}, [own EXCEPT ![v] = o], raw, {o}, {}, OOS, ncb)
 
 CtorAdopt(v, o) ==     \* P<T> v(p) with p a raw pointer obtained from release()
-  /\ v \notin scope /\ o \in raw
+  /\ v \in RootVar /\ v \notin scope /\ o \in raw
   /\ Plain("CtorAdopt", v, "", scope \cup {v}, [own EXCEPT ![v] = o], raw \ {o}, {}, {}, o, ncb)
 
 CtorCopy(v, w) ==      \* shared_ptr<T> v(w);
-  /\ v \notin scope /\ w \in scope /\ CopyConv(w, v)
+  /\ v \in RootVar /\ v \notin scope /\ w \in scope /\ CopyConv(w, v)
   /\ Plain("CtorCopy", v, w, scope \cup {v}, [own EXCEPT ![v] = own[w]], raw, {}, {}, OOS, Takes(v, w))
 
 CtorMove(v, w) ==      \* P<T> v(std::move(w));  incl. Derived -> Base and unique -> shared
-  /\ v \notin scope /\ w \in scope /\ MoveConv(w, v)
+  /\ v \in RootVar /\ v \notin scope /\ w \in scope /\ MoveConv(w, v)
   /\ Plain("CtorMove", v, w, scope \cup {v}, [own EXCEPT ![v] = own[w], ![w] = Null], raw, {}, {}, OOS, Takes(v, w) \ {w})
 
 (* ---- assignment -------------------------------------------------------- *)
+\* Deviation shared-assign-from-member-of-own-pointee (v = w or v = std::move(w), both shared_ptr, w a
+\* member of an object that only lives through v, e.g. head = head->next): the code lets go of v's
+\* object BEFORE it takes w's.  That destroys w, and with it everything only w kept alive, and v is
+\* then filled from the destroyed w (dangling; the process may die).  EarlyRelease = what that does.
+EarlyRelease(v) == Settle(scope, [own EXCEPT ![v] = Null], raw, {}, {own[v]})
+FromPointee(v, w) == /\ PointeeDev \in Dev /\ v # w /\ ~IsU(v) /\ ~IsU(w) /\ w \in MemberVars
+                     /\ w \notin EarlyRelease(v).sc
+PointeeObs(v, w) == LET st == EarlyRelease(v) IN
+                    ObsOf(st.sc, [st.ow EXCEPT ![v] = own[w]], st.os, st.died, OOS)
+
 \* v = w (copy), including v = v.  The old object of v is let go of.
 \* Deviation (only v = v): (A) v is the only owner of its object: the code destroys the object and keeps
 \* pointing at it; (B) v holds null but owns a control block of its own: the code frees the control
@@ -159,6 +214,7 @@ AssignCopy(v, w) ==
          os3 == [ost EXCEPT ![o] = "dead"]
          dv == IF devA THEN [name |-> SelfCopyDev, exp |-> <<ObsOf(scope, own, os3, {o}, OOS)>>]
                ELSE IF devB THEN [name |-> SelfCopyDev, exp |-> <<ObsOf(scope, own, ost, {}, OOS)>>]
+               ELSE IF FromPointee(v, w) THEN [name |-> PointeeDev, exp |-> <<PointeeObs(v, w)>>]
                ELSE NoDev
      IN Step("AssignCopy", v, w, scope, [own EXCEPT ![v] = own[w]], raw, {}, {o}, OOS, <<>>, dv,
              IF v = w THEN ncb ELSE Takes(v, w))
@@ -166,32 +222,38 @@ AssignCopy(v, w) ==
 \* what the unchanged code does for `s = s` when s is the only owner: the object is destroyed
 \* and s keeps pointing at it.  Only for the AsImplemented model-checking run (terminal state).
 AssignCopySelfDev(v) ==
-  /\ Go /\ SelfCopyDev \in Dev
+  /\ Go /\ ~Hist /\ SelfCopyDev \in Dev        \* generation runs carry the deviation in expDev of the ideal step
   /\ v \in scope /\ ~IsU(v) /\ SoleOwner(v)
   /\ LET o == own[v] IN
      /\ ost' = [ost EXCEPT ![o] = "dead"]
      /\ dcnt' = [dcnt EXCEPT ![o] = dcnt[o] + 1]
      /\ devUsed' = devUsed \cup {SelfCopyDev}
-     /\ UNCHANGED <<scope, own, raw, ncb>>
-     /\ hist' = IF ~Hist THEN hist
-                ELSE Append(hist, [op |-> "AssignCopy", v |-> v, w |-> v,
-                                   exp |-> ObsOf(scope, own, ost, {}, OOS), alts |-> <<>>,
-                                   dev |-> SelfCopyDev,
-                                   expDev |-> <<ObsOf(scope, own, [ost EXCEPT ![o] = "dead"], {o}, OOS)>>])
+     /\ UNCHANGED <<scope, own, raw, ncb, hist>>
 
 AssignMove(v, w) ==    \* v = std::move(w), v # w
   /\ v \in scope /\ w \in scope /\ v # w /\ AssignConv(w, v)
-  /\ Plain("AssignMove", v, w, scope, [own EXCEPT ![v] = own[w], ![w] = Null], raw, {}, {own[v]}, OOS, Takes(v, w) \ {w})
+  /\ Step("AssignMove", v, w, scope, [own EXCEPT ![v] = own[w], ![w] = Null], raw, {}, {own[v]}, OOS, <<>>,
+          IF FromPointee(v, w) THEN [name |-> PointeeDev, exp |-> <<PointeeObs(v, w)>>] ELSE NoDev,
+          Takes(v, w) \ {w})
+
+\* the deviating outcome itself, for the as-implemented model-checking run (terminal state)
+AssignFromPointeeDev(v, w) ==
+  /\ Go /\ ~Hist /\ v \in scope /\ w \in scope /\ CopyConv(w, v) /\ FromPointee(v, w)
+  /\ LET st == EarlyRelease(v) IN
+     /\ scope' = st.sc /\ own' = [st.ow EXCEPT ![v] = own[w]] /\ ost' = st.os
+     /\ dcnt' = [o \in Obj |-> dcnt[o] + (IF o \in st.died THEN 1 ELSE 0)]
+     /\ devUsed' = devUsed \cup {PointeeDev}
+     /\ ncb' = ncb \cap st.sc
+     /\ UNCHANGED <<raw, hist>>
 
 \* v = std::move(v): valid but unspecified -- unchanged or emptied (never dangling, never leaked)
 AssignMoveSelf(v, keep) ==
   /\ v \in scope
   /\ LET o == own[v]
          owE == [own EXCEPT ![v] = Null]
-         diedE == {p \in {o} \ {Null} : ~Owned(p, scope, owE, raw)}
-         osE == [p \in Obj |-> IF p \in diedE THEN "dead" ELSE ost[p]]
+         stE == Settle(scope, owE, raw, {}, {o})
          oK == ObsOf(scope, own, ost, {}, OOS)
-         oE == ObsOf(scope, owE, osE, diedE, OOS)
+         oE == ObsOf(stE.sc, stE.ow, stE.os, stE.died, OOS)
      IN IF keep THEN Step("AssignMoveSelf", v, v, scope, own, raw, {}, {}, OOS, <<oE>>, NoDev, ncb)
                 ELSE Step("AssignMoveSelf", v, v, scope, owE, raw, {}, {o}, OOS, <<oK>>, NoDev, ncb \ {v})
 
@@ -228,7 +290,7 @@ Swap(v, w) ==          \* v.swap(w), including v.swap(v)
            (ncb \ {v, w}) \cup (IF w \in ncb THEN {v} ELSE {}) \cup (IF v \in ncb THEN {w} ELSE {}))
 
 ScopeExit(v) ==        \* the variable's destructor runs
-  /\ v \in scope
+  /\ v \in RootVar /\ v \in scope
   /\ Plain("ScopeExit", v, "", scope \ {v}, [own EXCEPT ![v] = Null], raw, {}, {own[v]}, OOS, ncb \ {v})
 
 Init == /\ scope = {} /\ own = [v \in Var |-> Null] /\ raw = {}
@@ -242,7 +304,7 @@ Next == \/ \E v \in Var : CtorDefault(v) \/ CtorNew(v) \/ AssignNull(v) \/ Reset
         \/ \E v \in Var, o \in Obj : CtorAdopt(v, o) \/ ResetAdopt(v, o)
         \/ \E o \in Obj : RawDelete(o)
         \/ \E v \in Var, w \in Var : CtorCopy(v, w) \/ CtorMove(v, w) \/ AssignCopy(v, w)
-                                     \/ AssignMove(v, w) \/ Swap(v, w)
+                                     \/ AssignMove(v, w) \/ Swap(v, w) \/ AssignFromPointeeDev(v, w)
 
 Spec == Init /\ [][Next]_vars
 
@@ -250,6 +312,7 @@ Spec == Init /\ [][Next]_vars
 TypeOK == /\ scope \subseteq Var /\ raw \subseteq Obj
           /\ \A v \in Var : own[v] \in Obj \cup {Null}
           /\ \A v \in Var \ scope : own[v] = Null
+          /\ (MKind # "none" /\ devUsed = {}) => \A o \in Obj : (MName[o] \in scope) <=> (ost[o] = "live")
           /\ ncb \subseteq {v \in scope : ~IsU(v) /\ own[v] = Null}
 DestroyedAtMostOnce == \A o \in Obj : dcnt[o] <= 1 /\ (ost[o] = "dead" <=> dcnt[o] = 1)
 \* alive exactly as long as somebody owns it: no leak (live, no owner), no dangling owner
@@ -285,6 +348,14 @@ Wits == <<
   <<"Adopt",           HasLast /\ Last.op \in {"CtorAdopt", "ResetAdopt"}>>,
   <<"RawDelete",       HasLast /\ Last.op = "RawDelete">>,
   <<"ConvUniqueShared", HasLast /\ Last.op \in {"CtorMove", "AssignMove"} /\ Last.w \in UVars /\ Last.v \notin UVars /\ own[Last.v] # Null>>,
-  <<"ConvDerivedBase", HasLast /\ Last.op \in {"CtorMove", "AssignMove"} /\ Last.w \notin BVars /\ Last.v \in BVars /\ own[Last.v] # Null>> >>
+  <<"ConvDerivedBase", HasLast /\ Last.op \in {"CtorMove", "AssignMove"} /\ Last.w \notin BVars /\ Last.v \in BVars /\ own[Last.v] # Null>>,
+  \* the source lives inside the object the destination owns: head = std::move(head->next), head = head->next
+  <<"AssignFromOwnPointee", HasLast /\ Last.op \in {"AssignMove", "AssignCopy"} /\ Last.w \in MemberVars /\ Last.w \notin scope
+                            /\ Last.exp.died # {} /\ own[Last.v] # Null>>,
+  \* head.reset(head->next.release())
+  <<"ResetFromOwnPointee", HasLast /\ Len(hist) > 1 /\ Last.op = "ResetAdopt" /\ Last.exp.died # {} /\ hist[Len(hist) - 1].op = "Release"
+                           /\ hist[Len(hist) - 1].v \in MemberVars /\ hist[Len(hist) - 1].v \notin scope>>,
+  <<"CascadeDeath",    HasLast /\ Cardinality(Last.exp.died) >= 2>>,
+  <<"MemberTakesOver", HasLast /\ Last.op \in {"AssignMove", "AssignCopy", "ResetNew", "ResetAdopt"} /\ Last.v \in MemberVars /\ own[Last.v] # Null>> >>
 WitAll == \A i \in 1..NWit : (Wits[i][2] /\ TLCGet(i) = 0) => (PrintT(<<"WIT", Wits[i][1]>>) /\ TLCSet(i, 1))
 =============================================================================
